@@ -97,8 +97,18 @@ func (s *ATSchema) isPK(c int) bool {
 func (s *ATSchema) Create(e *memdb.Engine) {
 	s.DBName = e.Name()
 	def := memdb.TableDef{Name: s.Table}
+	// every fourth table has its columns in capital letters in the catalogue (ID, C1, ...) while the statements
+	// go on writing them in small letters: column names are case-insensitive
+	h := 0
+	for _, ch := range s.Table {
+		h += int(ch)
+	}
+	upper := h%4 == 0
 	for _, c := range s.Cols {
 		col := memdb.Column{Name: c.Name, Nullable: c.Nullable}
+		if upper {
+			col.Name = strings.ToUpper(c.Name)
+		}
 		if s.Auto && len(def.Cols) == 0 {
 			col.AutoInc = true
 		}
@@ -111,6 +121,10 @@ func (s *ATSchema) Create(e *memdb.Engine) {
 		def.Cols = append(def.Cols, col)
 	}
 	for _, p := range s.PK {
+		if upper {
+			def.PK = append(def.PK, strings.ToUpper(s.Cols[p].Name))
+			continue
+		}
 		def.PK = append(def.PK, s.Cols[p].Name)
 	}
 	if len(def.PK) == 2 && len(s.Table)%2 == 0 {
